@@ -210,13 +210,41 @@ type outcome struct {
 	loadErr error
 	project *types.Project
 	optEnv  map[string]string
+	// repeated: the later env file was also listed before the earlier one
+	repeated bool
 }
 
 func composeText(c *sem, i int) string {
 	var sb strings.Builder
+	style := (c.Order + 2*i) % 5 // how the `name` key is written; 4: the whole file is JSON
+	if style == 4 {
+		doc := map[string]any{}
+		if c.NameKey[i] {
+			doc["name"] = c.Names[i]
+		}
+		svc := map[string]any{}
+		if i == 0 {
+			svc["image"] = "img-${" + cpn + "}"
+			lab := map[string]any{}
+			for _, k := range c.keys() {
+				if k != cpn {
+					lab[k] = "${" + k + "}"
+				}
+			}
+			if len(lab) > 0 {
+				svc["labels"] = lab
+			}
+		} else {
+			svc["labels"] = map[string]any{fmt.Sprintf("file%d", i): "present"}
+		}
+		doc["services"] = map[string]any{"s": svc}
+		b, _ := json.MarshalIndent(doc, "", "  ")
+		return string(b) + "\n"
+	}
 	if c.NameKey[i] {
 		b, _ := json.Marshal(c.Names[i]) // a JSON string is a valid YAML double-quoted scalar
-		sb.WriteString("name: " + string(b) + "\n")
+		key := []string{"name:", "\"name\":", "'name':", "name :"}[style]
+		sb.WriteString(key + " " + string(b) + "\n")
 	}
 	sb.WriteString("services:\n")
 	if i == 0 {
@@ -288,6 +316,12 @@ func execute(root string, c *sem) (out outcome, pi *core.PanicInfo, files map[st
 		envFiles = []string{write(proj, "first.env", envText(c.E1))}
 	default:
 		envFiles = []string{write(proj, "first.env", envText(c.E1)), write(proj, "second.env", envText(c.E2))}
+		if c.Order%3 == 1 {
+			// the later file is also listed before the earlier one: it is applied at every position it
+			// is listed at, the last one included, so the precedence is the same
+			envFiles = []string{envFiles[1], envFiles[0], envFiles[1]}
+			out.repeated = true
+		}
 	}
 	// OS environment (single-threaded shard)
 	for _, e := range c.OS {
@@ -420,6 +454,9 @@ func judge(s *core.Shard, c *sem) {
 	s.Cover("wd-mode", c.WdMode)
 	if c.Symlink != "" {
 		s.Cover("project-directory", "symbolic link to a directory with another base name")
+	}
+	if out.repeated {
+		s.Cover("env-files", "the later file also listed before the earlier one")
 	}
 	s.Cover("env-files", c.EnvFiles)
 	if c.Part == "name" {
